@@ -13,6 +13,8 @@ set_option linter.unusedVariables false
 
 namespace Pandora.C15Kernels
 open Pandora Pandora.PyArr Pandora.Multiscale Pandora.C15
+open Pandora.Generated.KernelsMultiscale (prepareBoundMinAt prepareBoundMin prepareBoundMaxAt prepareBoundMax mcPrepareMin mcPrepareMax
+  mcPrepareRightMin mcPrepareRightMax prepareRightMin prepareRightMax)
 
 /-! ### the store -/
 
@@ -298,5 +300,233 @@ theorem disparityRange_generated (disp : Multiscale.Grid Val) (flags : Multiscal
     · simp (disch := omega) only [if_pos, Store.full, Store.maskFill, Store.zoom, alloc_snd, alloc_next, mi_snd, mi_next, blockedSt2_next,
         blockedSt2_eq, set_next, mi_arr, alloc_arr, set_arr, if_true, if_false, ↓reduceIte, if_neg, View.rows, View.cols,
         maskOf, Bool.false_eq_true]
+
+/-! ### the grids of the next level -/
+
+theorem upsampleCrop_eq_tab (R C f fr fc : Nat) (h : Nat → Nat → Val) (hf : 1 ≤ f) (hR : 0 < R) :
+    upsampleCrop (tab R C h) f fr fc
+      = tab (min fr (if f = 1 then R else f * R)) (min fc (if f = 1 then C else f * C))
+          fun i j => (h (zoomIndex R f i) (zoomIndex C f j)).map (· * (f : Rat)) := by
+  unfold upsampleCrop
+  by_cases h1 : f = 1
+  · subst h1
+    simp only [if_true, rows_tab, cols_tab R C h hR]
+    apply List.map_congr_left
+    intro i hi
+    apply List.map_congr_left
+    intro j hj
+    rw [List.mem_range] at hi hj
+    beta_reduce
+    rw [get_tab R C h i j (by omega) (by omega), zoomIndex_one R i (by omega), zoomIndex_one C j (by omega)]
+  · have hfR : 0 < f * R := Nat.mul_pos (by omega) hR
+    simp only [if_neg h1, zoom0_tab R C f h hR, rows_tab, cols_tab (f * R) (f * C) _ hfR]
+    apply List.map_congr_left
+    intro i hi
+    apply List.map_congr_left
+    intro j hj
+    rw [List.mem_range] at hi hj
+    have hC : 0 < C := by
+      rcases Nat.eq_zero_or_pos C with h0 | h0
+      · subst h0; omega
+      · exact h0
+    rw [get_tab (f * R) (f * C) _ i j (by omega) (by omega),
+      get_tab R C h _ _ (zoomIndex_lt R f i hR hf (by omega)) (zoomIndex_lt C f j hC hf (by omega))]
+
+/-- what `run_multiscale`, `matching_cost_prepare` and `cv_masked` do with a returned map of shape `sh` (hand model,
+    compared on every run): multiplication by the factor, crop to the finer image -/
+def cropMul (sh : Nat × Nat) (a : Arr Val) (f fineRows fineCols : Nat) : Multiscale.Grid Val :=
+  tab (min fineRows sh.1) (min fineCols sh.2) fun i j => (a i j).map (· * (f : Rat))
+
+/-- the grids the next level searches, computed with the GENERATED `disparity_range` -/
+def generatedNextLevel (disp : Multiscale.Grid Val) (flags : Multiscale.Grid Nat) (w marge f : Nat)
+    (userMin nmaxMin nminMax userMax : Rat) (z : ZoomFn) (dm : Nat) (s0 : Store Val) (fineRows fineCols : Nat) :
+    Multiscale.Grid Val × Multiscale.Grid Val :=
+  let R := Generated.KernelsMultiscale.disparityRange w marge f disp.rows disp.cols (fun r c => flags.get r c)
+    userMin nmaxMin nminMax userMax z dm s0
+  let sh := Generated.KernelsMultiscale.disparityRangeShape f disp.rows disp.cols
+  (cropMul sh (R.1.arr R.2.1) f fineRows fineCols, cropMul sh (R.1.arr R.2.2) f fineRows fineCols)
+
+/-- **The next level's grids computed with the generated `disparity_range` are the model's `nextLevelGrids`** — for every
+    coarse level, odd window that fits, marge, factor `f ≥ 1`, user interval, finer size, store, and `zoom` that copies the
+    `zoomIndex` parent for the pinned arguments. -/
+theorem generatedNextLevel_eq (disp : Multiscale.Grid Val) (flags : Multiscale.Grid Nat) (w marge f : Nat)
+    (userMin nmaxMin nminMax userMax : Rat) (z : ZoomFn) (dm : Nat) (s0 : Store Val) (fineRows fineCols : Nat)
+    (hd : dm < s0.next) (hA : ∀ r c, r < disp.rows → c < disp.cols → s0.arr dm r c = disp.get r c)
+    (hodd : w % 2 = 1) (hrows : w ≤ disp.rows) (hcols : w ≤ disp.cols) (hf : 1 ≤ f) (hz : ZoomIsNearest z) :
+    generatedNextLevel disp flags w marge f userMin nmaxMin nminMax userMax z dm s0 fineRows fineCols
+      = nextLevelGrids disp flags w marge f userMin userMax fineRows fineCols := by
+  have hR : 0 < disp.rows := by omega
+  obtain ⟨hcell, _⟩ := disparityRange_generated disp flags w marge f userMin nmaxMin nminMax userMax z dm s0 hd hA hodd
+    hrows hcols hf hz
+  rw [nextLevelGrids_eq, coarseRanges_eq]
+  dsimp only
+  rw [upsampleCrop_eq_tab _ _ f fineRows fineCols _ hf hR, upsampleCrop_eq_tab _ _ f fineRows fineCols _ hf hR]
+  unfold generatedNextLevel cropMul
+  have hsh : Generated.KernelsMultiscale.disparityRangeShape f disp.rows disp.cols
+      = (if f = 1 then disp.rows else f * disp.rows, if f = 1 then disp.cols else f * disp.cols) := by
+    unfold Generated.KernelsMultiscale.disparityRangeShape
+    by_cases h1 : f = 1 <;> simp [h1]
+  rw [hsh] at hcell
+  simp only [hsh]
+  refine Prod.ext ?_ ?_
+  · apply List.map_congr_left
+    intro i hi
+    apply List.map_congr_left
+    intro j hj
+    rw [List.mem_range] at hi hj
+    beta_reduce
+    rw [(hcell i j (by omega) (by omega)).1]
+  · apply List.map_congr_left
+    intro i hi
+    apply List.map_congr_left
+    intro j hj
+    rw [List.mem_range] at hi hj
+    beta_reduce
+    rw [(hcell i j (by omega) (by omega)).2]
+
+/-! ### the statements of `Properties/C15Grids.lean` about the GENERATED definition -/
+
+section generated
+variable (disp : Multiscale.Grid Val) (flags : Multiscale.Grid Nat) (w marge f : Nat)
+  (userMin nmaxMin nminMax userMax : Rat) (z : ZoomFn) (dm : Nat) (s0 : Store Val) (fineRows fineCols i j : Nat)
+  (hd : dm < s0.next) (hA : ∀ r c, r < disp.rows → c < disp.cols → s0.arr dm r c = disp.get r c)
+  (hodd : w % 2 = 1) (hrows : w ≤ disp.rows) (hcols : w ≤ disp.cols) (hf : 1 ≤ f) (hz : ZoomIsNearest z)
+  (hi : i < fineRows) (hj : j < fineCols) (hiz : i < f * disp.rows) (hjz : j < f * disp.cols)
+include hd hA hodd hrows hcols hf hz hi hj hiz hjz
+
+/-- **Generated `disparity_range` + upsampling + `× f` + crop = specification** at the parent chosen by `zoom` -/
+theorem generated_nextLevel_eq_spec
+    (hnum : Flags.isInvalid (flags.get (zoomIndex disp.rows f i) (zoomIndex disp.cols f j)) = false →
+      (disp.get (zoomIndex disp.rows f i) (zoomIndex disp.cols f j)).isNan = false) :
+    ((generatedNextLevel disp flags w marge f userMin nmaxMin nminMax userMax z dm s0 fineRows fineCols).1.get i j,
+     (generatedNextLevel disp flags w marge f userMin nmaxMin nminMax userMax z dm s0 fineRows fineCols).2.get i j)
+      = specInterval disp flags w marge f userMin userMax (zoomIndex disp.rows f i) (zoomIndex disp.cols f j) := by
+  rw [generatedNextLevel_eq disp flags w marge f userMin nmaxMin nminMax userMax z dm s0 fineRows fineCols hd hA hodd hrows
+    hcols hf hz]
+  exact nextLevelGrids_eq_spec disp flags w marge f userMin userMax fineRows fineCols i j hf hi hj hiz hjz hnum
+
+/-- `finer_interval_rule` about the generated definition: a valid interior parent of disparity `d` gives an interval
+    containing `f · [d − marge, d + marge]` -/
+theorem generated_fine_interval_contains_parent (d : Rat)
+    (hint : interiorB ((w - 1) / 2) disp.rows disp.cols (zoomIndex disp.rows f i) (zoomIndex disp.cols f j) = true)
+    (hv : Flags.isInvalid (flags.get (zoomIndex disp.rows f i) (zoomIndex disp.cols f j)) = false)
+    (hdv : disp.get (zoomIndex disp.rows f i) (zoomIndex disp.cols f j) = Val.num d) :
+    ∃ lo hi',
+      (generatedNextLevel disp flags w marge f userMin nmaxMin nminMax userMax z dm s0 fineRows fineCols).1.get i j = Val.num lo
+      ∧ (generatedNextLevel disp flags w marge f userMin nmaxMin nminMax userMax z dm s0 fineRows fineCols).2.get i j = Val.num hi'
+      ∧ lo ≤ (f : Rat) * (d - marge) ∧ (f : Rat) * (d + marge) ≤ hi' := by
+  rw [generatedNextLevel_eq disp flags w marge f userMin nmaxMin nminMax userMax z dm s0 fineRows fineCols hd hA hodd hrows
+    hcols hf hz]
+  exact fine_interval_contains_parent disp flags w marge f userMin userMax fineRows fineCols i j d hf hi hj hiz hjz hint hv hdv
+
+/-- `invalid_parent_full_interval` about the generated definition -/
+theorem generated_fine_interval_user
+    (h : interiorB ((w - 1) / 2) disp.rows disp.cols (zoomIndex disp.rows f i) (zoomIndex disp.cols f j) = false
+      ∨ Flags.isInvalid (flags.get (zoomIndex disp.rows f i) (zoomIndex disp.cols f j)) = true) :
+    (generatedNextLevel disp flags w marge f userMin nmaxMin nminMax userMax z dm s0 fineRows fineCols).1.get i j
+        = Val.num ((f : Rat) * ratTrunc userMin)
+    ∧ (generatedNextLevel disp flags w marge f userMin nmaxMin nminMax userMax z dm s0 fineRows fineCols).2.get i j
+        = Val.num ((f : Rat) * ratTrunc userMax) := by
+  rw [generatedNextLevel_eq disp flags w marge f userMin nmaxMin nminMax userMax z dm s0 fineRows fineCols hd hA hodd hrows
+    hcols hf hz]
+  exact fine_interval_user disp flags w marge f userMin userMax fineRows fineCols i j hf hi hj hiz hjz h
+
+/-- every fine pixel gets `min ≤ max` from the generated definition -/
+theorem generated_fine_interval_min_le_max (huser : userMin ≤ userMax)
+    (hnum : Flags.isInvalid (flags.get (zoomIndex disp.rows f i) (zoomIndex disp.cols f j)) = false →
+      (disp.get (zoomIndex disp.rows f i) (zoomIndex disp.cols f j)).isNan = false) :
+    ∃ lo hi',
+      (generatedNextLevel disp flags w marge f userMin nmaxMin nminMax userMax z dm s0 fineRows fineCols).1.get i j = Val.num lo
+      ∧ (generatedNextLevel disp flags w marge f userMin nmaxMin nminMax userMax z dm s0 fineRows fineCols).2.get i j = Val.num hi'
+      ∧ lo ≤ hi' := by
+  rw [generatedNextLevel_eq disp flags w marge f userMin nmaxMin nminMax userMax z dm s0 fineRows fineCols hd hA hodd hrows
+    hcols hf hz]
+  exact fine_interval_min_le_max disp flags w marge f userMin userMax fineRows fineCols i j hf hi hj hiz hjz huser hnum
+
+end generated
+
+/-! ### scalar interval glue of `run_prepare` / `matching_cost_prepare` -/
+
+/-- **`run_prepare`'s interval division, regenerated = model**, for every rational bound and all naturals with a non-zero
+    factor: `user / scale_factor ** num_scales` is `Multiscale.prepareBound` and does not raise -/
+theorem prepareBound_generated (user : Rat) (f n : Nat) (hf : f ≠ 0) :
+    prepareBoundMinAt user f n = PyExpr.PyRes.ok (prepareBound user f n)
+    ∧ prepareBoundMaxAt user f n = PyExpr.PyRes.ok (prepareBound user f n) := by
+  have hne : ((((f : Nat) : Int) ^ n : Int) : Rat) ≠ 0 := by
+    have : ((f : Nat) : Rat) ≠ 0 := by exact_mod_cast hf
+    push_cast
+    exact pow_ne_zero n this
+  constructor
+  · unfold prepareBoundMinAt prepareBoundMin prepareBound
+    simp only [hne, if_false]
+    push_cast
+    rfl
+  · unfold prepareBoundMaxAt prepareBoundMax prepareBound
+    simp only [hne, if_false]
+    push_cast
+    rfl
+
+theorem prepareBound_raises_iff (user : Rat) (f n : Nat) :
+    prepareBoundMinAt user f n = PyExpr.PyRes.zeroDivision ↔ (f = 0 ∧ n ≠ 0) := by
+  unfold prepareBoundMinAt prepareBoundMin
+  constructor
+  · intro h
+    by_contra hc
+    have hne : ((((f : Nat) : Int) ^ n : Int) : Rat) ≠ 0 := by
+      push_cast
+      by_cases h0 : f = 0
+      · have : n = 0 := by
+          by_contra hn
+          exact hc ⟨h0, hn⟩
+        subst this
+        simp
+      · exact pow_ne_zero n (by exact_mod_cast h0)
+    simp [hne] at h
+    exact hc h
+  · rintro ⟨h0, hn⟩
+    subst h0
+    simp [hn]
+
+theorem mcPrepare_generated (bound : Rat) (f : Nat) :
+    mcPrepareMin bound (f : Int) = bound * (f : Rat) ∧ mcPrepareMax bound (f : Int) = bound * (f : Rat)
+    ∧ mcPrepareRightMin bound (f : Int) = bound * (f : Rat) ∧ mcPrepareRightMax bound (f : Int) = bound * (f : Rat) := by
+  refine ⟨?_, ?_, ?_, ?_⟩ <;> simp [mcPrepareMin, mcPrepareMax, mcPrepareRightMin, mcPrepareRightMax]
+
+/-- the generated glue chained: `run_prepare` then `k` times `matching_cost_prepare` is the model's `boundAfter` -/
+theorem boundAfter_generated (user : Rat) (f n k : Nat) :
+    boundAfter user f n (k + 1) = mcPrepareMin (boundAfter user f n k) (f : Int)
+    ∧ boundAfter user f n (k + 1) = mcPrepareMax (boundAfter user f n k) (f : Int)
+    ∧ boundAfter user f n 0 = prepareBound user f n := by
+  refine ⟨?_, ?_, ?_⟩
+  · simp only [mcPrepareMin, boundAfter]
+    push_cast
+    rw [pow_succ, mul_assoc]
+  · simp only [mcPrepareMax, boundAfter]
+    push_cast
+    rw [pow_succ, mul_assoc]
+  · simp [boundAfter]
+
+theorem prepareRight_generated (dmin dmax : Rat) :
+    prepareRightMin dmin dmax = -dmax ∧ prepareRightMax dmin dmax = -dmin := ⟨rfl, rfl⟩
+
+
+/-! ### non-vacuity -/
+
+/-- the hypotheses of `disparityRange_generated` hold for the 4 × 5 demo level of `C15Grids`, window 3, factor 2, the
+    store holding that map, and the model's own reading of `zoom` -/
+def demoStore : Store Val := Store.init [fun r c => demoDisp.get r c] (fun _ _ => Val.nan)
+
+example : (0 : Nat) < demoStore.next ∧ 3 % 2 = 1 ∧ 3 ≤ demoDisp.rows ∧ 3 ≤ demoDisp.cols ∧ 1 ≤ 2 := by decide
+example : ∀ r c, r < demoDisp.rows → c < demoDisp.cols → demoStore.arr 0 r c = demoDisp.get r c := fun _ _ _ _ => rfl
+example : ZoomIsNearest Generated.KernelsMultiscale.goldenZoom := by
+  intro ny nx f a
+  simp [Generated.KernelsMultiscale.goldenZoom]
+/-- a `zoom` that does something else for other keyword arguments still satisfies the hypothesis: nothing is assumed
+    about `zoom(…, mode="constant")` (scipy's default), so a source that drops `mode="nearest"` is not covered -/
+example : Generated.KernelsMultiscale.goldenZoom { order := 0, mode := "constant" } 1 1 2 (fun _ _ => Val.num 1) 0 0 = Val.nan := by
+  decide +kernel
+/-- and the generated program evaluates to the model's grids there (fine pixel (4, 3): parent (2, 1), 2·[−1, 8]) -/
+example : (generatedNextLevel demoDisp demoFlags 3 1 2 (-7 / 2) (-3) 3 (7 / 2) Generated.KernelsMultiscale.goldenZoom 0 demoStore
+    7 9).1.get 4 3 = .num (-2) := by decide +kernel
 
 end Pandora.C15Kernels
